@@ -11,38 +11,47 @@
              "swap"    wg.Done before delete(m,key): waiters spin through the loop until the
                        entry is gone - wasteful but still satisfies C07
              "nogoto"  after wg.Wait the caller registers itself without looking again
-                       (two waiters of one runner then execute together)            *)
+                       (two waiters of one runner then execute together)
+             "shared"  all objects (Objs: the LockedCalls instances the callers use) are backed by one
+                       map indexed by the key string alone: a call on object B waits for object A's
+                       execution of the same key string
+
+   Objects: every call is made on one object of Objs; the map m of the code as it is belongs to
+   the object (index <<object, key>>).                                           *)
 EXTENDS Flight
 
-CONSTANTS Procs, Keys, MaxCalls, Variant
+CONSTANTS Procs, Objs, Keys, MaxCalls, Variant
 
 VARIABLES
   pc, n, key, obj, rv,
-  m,       \* lockedGroup.m: key |-> wait group (identified by the call that created it)
+  mgr,     \* the object the current call of a process is made on
+  m,       \* lockedGroup.m: <<object, key>> |-> wait group (identified by the call that created it)
   wg       \* wait group |-> counter
 
-ivars == <<pc, n, key, obj, rv, m, wg>>
+ivars == <<pc, n, key, obj, rv, mgr, m, wg>>
 vars == <<pvars, ivars>>
 
 Cid(p) == p * 10 + n[p]
 None == [v |-> 0, err |-> 0]
+FKey(p) == IF Variant = "shared" THEN key[p] ELSE <<mgr[p], key[p]>>   \* index into m
 
 IInit ==
   /\ PInit("lc")
   /\ pc = [p \in Procs |-> "idle"] /\ n = [p \in Procs |-> 0]
   /\ key = [p \in Procs |-> 0] /\ obj = [p \in Procs |-> 0] /\ rv = [p \in Procs |-> None]
-  /\ m = <<>> /\ wg = <<>>
+  /\ m = <<>> /\ wg = <<>> /\ mgr = [p \in Procs |-> 0]
 
 Goto(p, lbl) == pc' = [pc EXCEPT ![p] = lbl]
 
 Begin(p) ==
   /\ pc[p] = "idle" /\ n[p] < MaxCalls
-  /\ \E k \in Keys : key' = [key EXCEPT ![p] = k] /\ PCallStart(Cid(p), k)
+  /\ \E o \in Objs, k \in Keys : /\ key' = [key EXCEPT ![p] = k] /\ mgr' = [mgr EXCEPT ![p] = o]
+                                /\ PCallStart(Cid(p), o, k)
   /\ Goto(p, "check")
   /\ UNCHANGED <<n, obj, rv, m, wg>>
 
 Register(p) ==
-  /\ m' = (key[p] :> Cid(p)) @@ m
+  /\ m' = (FKey(p) :> Cid(p)) @@ m
   /\ wg' = (Cid(p) :> 1) @@ wg
   /\ obj' = [obj EXCEPT ![p] = Cid(p)]
   /\ Goto(p, "exec")
@@ -50,26 +59,26 @@ Register(p) ==
 \* begin: lock; someone running for the key -> unlock and wait; else makeCall registers and unlocks
 Check(p) ==
   /\ pc[p] = "check"
-  /\ IF key[p] \in DOMAIN m
-       THEN obj' = [obj EXCEPT ![p] = m[key[p]]] /\ Goto(p, "wait") /\ UNCHANGED <<m, wg>>
+  /\ IF FKey(p) \in DOMAIN m
+       THEN obj' = [obj EXCEPT ![p] = m[FKey(p)]] /\ Goto(p, "wait") /\ UNCHANGED <<m, wg>>
        ELSE Register(p)
-  /\ UNCHANGED <<pvars, n, key, rv>>
+  /\ UNCHANGED <<mgr, pvars, n, key, rv>>
 
 \* wg.Wait() returned; goto begin
 Wait(p) ==
   /\ pc[p] = "wait" /\ wg[obj[p]] = 0
   /\ Goto(p, IF Variant = "nogoto" THEN "force" ELSE "check")
-  /\ UNCHANGED <<pvars, n, key, obj, rv, m, wg>>
+  /\ UNCHANGED <<mgr, pvars, n, key, obj, rv, m, wg>>
 
 Force(p) ==       \* only in the "nogoto" variant: lock; makeCall
   /\ pc[p] = "force" /\ Register(p)
-  /\ UNCHANGED <<pvars, n, key, rv>>
+  /\ UNCHANGED <<mgr, pvars, n, key, rv>>
 
 FnStart(p) ==
   /\ pc[p] = "exec"
   /\ PFnStart(Cid(p))
   /\ Goto(p, "fn")
-  /\ UNCHANGED <<n, key, obj, rv, m, wg>>
+  /\ UNCHANGED <<mgr, n, key, obj, rv, m, wg>>
 
 FnEnd(p) ==
   /\ pc[p] = "fn"
@@ -79,24 +88,24 @@ FnEnd(p) ==
        /\ PFnEnd(Cid(p), v, e)
        /\ rv' = [rv EXCEPT ![p] = [v |-> v, err |-> e]]
   /\ Goto(p, "del")
-  /\ UNCHANGED <<n, key, obj, m, wg>>
+  /\ UNCHANGED <<mgr, n, key, obj, m, wg>>
 
 \* deferred: delete under lock, then Done ("swap": the other way round)
 Del(p) ==
   /\ pc[p] = "del"
   /\ IF Variant = "swap"
        THEN wg' = [wg EXCEPT ![obj[p]] = 0] /\ UNCHANGED m
-       ELSE m' = Restrict(m, DOMAIN m \ {key[p]}) /\ UNCHANGED wg
+       ELSE m' = Restrict(m, DOMAIN m \ {FKey(p)}) /\ UNCHANGED wg
   /\ Goto(p, "done")
-  /\ UNCHANGED <<pvars, n, key, obj, rv>>
+  /\ UNCHANGED <<mgr, pvars, n, key, obj, rv>>
 
 Done(p) ==
   /\ pc[p] = "done"
   /\ IF Variant = "swap"
-       THEN m' = Restrict(m, DOMAIN m \ {key[p]}) /\ UNCHANGED wg
+       THEN m' = Restrict(m, DOMAIN m \ {FKey(p)}) /\ UNCHANGED wg
        ELSE wg' = [wg EXCEPT ![obj[p]] = 0] /\ UNCHANGED m
   /\ Goto(p, "ret")
-  /\ UNCHANGED <<pvars, n, key, obj, rv>>
+  /\ UNCHANGED <<mgr, pvars, n, key, obj, rv>>
 
 Ret(p) ==
   /\ pc[p] = "ret"
@@ -104,7 +113,7 @@ Ret(p) ==
   /\ n' = [n EXCEPT ![p] = @ + 1]
   /\ rv' = [rv EXCEPT ![p] = None]
   /\ Goto(p, "idle")
-  /\ UNCHANGED <<key, obj, m, wg>>
+  /\ UNCHANGED <<mgr, key, obj, m, wg>>
 
 Terminated == \A p \in Procs : pc[p] = "idle" /\ n[p] = MaxCalls
 INext == \/ \E p \in Procs : \/ Begin(p) \/ Check(p) \/ Wait(p) \/ Force(p)
@@ -117,6 +126,6 @@ FnStartOK == \A p \in Procs : pc[p] = "exec" => CanFnStart(Cid(p))
 CallEndOK == \A p \in Procs : pc[p] = "ret" => CanCallEnd(Cid(p), rv[p].v, rv[p].err, 2)
 \* a caller is parked only behind a registered call of its own key
 WaitOK    == \A p \in Procs : (pc[p] = "wait" /\ wg[obj[p]] > 0) =>
-               \E q \in Procs : q # p /\ key[q] = key[p] /\ obj[q] = obj[p]
+               \E q \in Procs : q # p /\ key[q] = key[p] /\ mgr[q] = mgr[p] /\ obj[q] = obj[p]
                                 /\ pc[q] \in {"exec", "fn", "del", "done"}
 =============================================================================
